@@ -139,6 +139,23 @@ def run(rep, tier, seed):
             for rows, cols, dim, nt in itertools.product(rows_l, cols_l, dims, threads):
                 for b in (batches if isb else [None]):
                     jobs[cfg].append((variant, rows, cols, dim, b, nt))
+    # threshold-directed shapes: both sides of every integer constant the tree / sponge code has that the pinned tree did not
+    from .. import thresholds
+    ths = thresholds.new_thresholds('poseidon')
+    xs, skipped = thresholds.merkle_extra(ths, tier)
+    for variant, isb, only in BUILDERS:
+        for cfg in ('avx2', 'avx512'):
+            if only and cfg != only:
+                continue
+            if cfg == 'avx512' and not only and variant not in ('merkletree', 'merkletree_batch'):
+                continue
+            for rows, cols, dim, b in xs:
+                if (b is not None) == bool(isb):
+                    jobs[cfg].append((variant, rows, cols, dim, b, 2))
+    if ths:
+        rep.note('threshold-directed shapes: new integer constants %s in the tree / sponge code; %d shapes per builder added' % (ths, len(xs)))
+    if skipped:
+        rep.note('NOT DECIDED: constants %s are beyond the shapes this tier can explore' % skipped)
     import multiprocessing as mp
     nproc = min(16, os.cpu_count() or 4)
     work = []
